@@ -94,7 +94,7 @@ def mu_mix_owners(w, home):
             s = {home}
     elif o == 'trylock-blocked':
         s = {'C02'}
-    elif o == 'asleep-past-deadline':
+    elif o in ('asleep-past-deadline', 'spinning-past-deadline'):
         s = {'C05'}
     elif o in ('return-reason', 'muwait-result'):
         s = {'C05'}
